@@ -443,6 +443,8 @@ def compare(ex, op, a, b, fr, node):
 
 def eq_values(ex, a, b):
     from .speceval import same_term, is_none
+    if a.ty.kind == "bool" and b.ty.kind == "bool":
+        return a.t == b.t
     nk = num_kind(a, b)
     if a.ty.kind == "none" or b.ty.kind == "none":
         return same_term(ex, a, b)
@@ -892,7 +894,7 @@ def _reversed(ex, fv_, args, kwargs, fr, node):
     n = llen(ex, lst)
     j = z3.Int("j")
     arrs = [z3.Lambda([j], _sel(a, n - 1 - j)) for a in larrs(ex, lst)]
-    return vlist(lst.ty.args[0], n, arrs)
+    return vlist(lst.ty.args[0], n, arrs, rev_of=lst)
 
 
 @handler("enumerate")
